@@ -330,7 +330,7 @@ def match_known(known, pid, f):
     for k in known.get('known', []):
         if k.get('property') not in (pid, '*') and pid not in k.get('properties', []):
             continue
-        if k['fn'] != f['fn'] or k['kind'] != f['kind']:
+        if 'fn' not in k or k['fn'] != f['fn'] or k.get('kind') != f['kind']:
             continue
         if 'text_contains' in k and not all(s in re.sub(r'\s+', ' ', f['text']) for s in k['text_contains']):
             continue
